@@ -6,6 +6,7 @@ INVARIANT RoundTrip
 INVARIANT InverseDeriv1
 INVARIANT InverseDeriv2
 INVARIANT InverseDeriv3
+INVARIANT ForwardFromInverse
 INVARIANT DirectionDecided
 INVARIANT DerivSign
 INVARIANT Monotone
